@@ -447,10 +447,19 @@ def shrink_inline(progs):
             P = A.Parents(f['body'])
             calls = [c for c in A.calls(f['body']) if A.callee(c) == SVB + '::resetToSmall']
             ok = False
+            extra = False
+            from .config import const_value
             for c in calls:
                 for cond, truth in P.guards(c):
                     cn, neg = unwrap_cond(cond)
                     t = truth != neg
+                    is_size_guard = False
+                    if isinstance(cn, dict) and cn.get('k') == 'bin' and cn.get('op') in ('<=', '>', '>=', '<'):
+                        l_, r_ = A.strip(cn['lhs']), A.strip(cn['rhs'])
+                        is_size_guard = _is_field(l_, '_size') or _is_field(r_, '_size')
+                    is_state = isinstance(cn, dict) and cn.get('k') == 'call' and A.cshort(cn) == 'isSmall'     # only a heap-backed vector can shrink
+                    if not is_size_guard and not is_state and const_value(cond) is None:
+                        extra = True        # a further run-time condition restricts the return to the inline storage
                     if isinstance(cn, dict) and cn.get('k') == 'bin':
                         l, r, op = A.strip(cn['lhs']), A.strip(cn['rhs']), cn['op']
                         ls, rs = _is_field(l, '_size'), _is_field(r, '_size')
@@ -458,6 +467,7 @@ def shrink_inline(progs):
                         rp = r.get('k') == 'ref' and r.get('dk') == 'param'
                         if (ls and rp and ((op == '<=' and t) or (op == '>' and not t))) or (lp and rs and ((op == '>=' and t) or (op == '<' and not t))):
                             ok = True
+            ok = ok and not extra
             rr.instance('%s' % f['key'], {'function': f['pname'][:140], 'resetToSmall_calls': len(calls), 'guard_is_size_le_N': ok})
             if not ok:
                 rr.add(Finding('SHRINK-INLINE', '%s' % f['key'], f['loc'],
